@@ -157,6 +157,22 @@ def run(tier, seed, open_findings):
             if viol or outcome.startswith('OTHER'):
                 fails.append(dict(case=dict(mode=mode, mechanism=kind, spelling=sp, location=loc.replace(root, '<root>')),
                                   observed=dict(outcome=outcome, fetched=[(k, p.replace(root, '<root>')) for k, p in viol]), required='no fetch outside the allowed class; only library exceptions'))
+        # a schema built from a LIST of sources: the second and later sources are fetched under the same mode and, in sandbox mode without base_url, inside the directory of the first one
+        open(main, 'w').write(f'<xs:schema {XS}><xs:element name="r"/></xs:schema>')
+        for mode, with_base, (sp, loc) in [(m_, wb, sl) for m_ in ('all', 'none', 'local', 'remote', 'sandbox') for wb in (True, False) for sl in SPELL.items()
+                                           if sl[0] in ('inside-abs', 'inside-url', 'evil-abs', 'evil-url', 'url-dots-out', 'url-dots-out2', 'url-dots-in', 'remote') and (wb or m_ == 'sandbox')]:
+            n += 1; _events.clear(); outcome = 'ok'; bkw = dict(base_url=base) if with_base else {}
+            try:
+                opener = urllib.request.build_opener(Stub)
+                xmlschema.XMLSchema10([main, loc], allow=mode, opener=opener, **bkw)
+            except XMLSchemaException as e: outcome = type(e).__name__
+            except Exception as e: outcome = 'OTHER:' + type(e).__name__ + ': ' + str(e)[:80]
+            own = {os.path.realpath(main)}
+            viol = [(k, p_) for k, p_ in _events if not (k == 'open' and p_ in own) and not allowed(mode, 'open' if k == 'open' else 'remote', p_, base)]
+            if any(k == 'open' and p_ in own for k, p_ in _events) and not allowed(mode, 'open', main, base): viol.append(('open', 'MAIN'))
+            if viol or outcome.startswith('OTHER'):
+                fails.append(dict(case=dict(mode=mode, mechanism='source-list', spelling=sp, location=loc.replace(root, '<root>'), explicit_base_url=with_base), observed=dict(outcome=outcome, fetched=[(k, p_.replace(root, '<root>')) for k, p_ in viol]),
+                                  required='no fetch outside the allowed class; only library exceptions'))
         # base_url='' (e.g. os.path.dirname('main.xsd')): the working directory is the base directory, not "no base"
         cwd = os.getcwd()
         try:
